@@ -11,7 +11,7 @@ from .. import model as M
 from ..codec import src, unsrc
 from ..common import shard_items
 from ..runner import Acc, parallel
-from ..terms import show, subterms, size, try_build
+from ..terms import show, size, try_build, unique_subterms
 from ..universe import universe
 
 BOUNDS = {"quick": {"D": 2, "full_cap": 1500, "max_execs": 60000},
@@ -93,7 +93,7 @@ def minimise(rng, t, rawkind, b):
         return t
     best = t
     small = dict(b, max_execs=4000, full_cap=400)
-    for st in sorted(set(subterms(t)), key=lambda x: (size(x), repr(x))):
+    for st in unique_subterms(t):
         if st == t or size(st) >= size(best) or not M.hsat(st):
             continue
         s, _ = try_build(st)
